@@ -413,17 +413,17 @@ func (e *env) domains() {
 	}
 	huge, _ := sdkmath.NewIntFromString("10000000000000")
 	e.named = map[string][]interface{}{
-		"EventNonce":     u(1, 2, 3),
-		"SkywayNonce":    u(1, 2, 3),
-		"EthBlockHeight": u(1, 2, 3, 4_000_000_000), // the last one lies after every batch timeout
-		"BatchNonce":     u(1, 2, 3),
-		"TokenContract":  s(erc1, erc2, erc3, swapCase(erc1)),
-		"Amount":         {sdkmath.NewInt(7), sdkmath.NewInt(8), sdkmath.NewInt(100), huge},
-		"EthereumSender": s("0x00000000000000000000000000000000000000bb", "0x00000000000000000000000000000000000000cc", "0x00000000000000000000000000000000000000dd"),
-		"PalomaReceiver": s(w.User("U1").Addr.String(), w.User("U2").Addr.String(), "garbage", "a/b"),
-		"ChainReferenceId": s(ref, ref2, ghostRef),
-		"CompassId":        s(world.CompassID, "other-compass", "a/b", ""),
-		"ClientAddress":    s(w.User("fresh1").Addr.String(), w.User("fresh2").Addr.String(), w.User("U1").Addr.String(), "a/b"),
+		"EventNonce":           u(1, 2, 3),
+		"SkywayNonce":          u(1, 2, 3),
+		"EthBlockHeight":       u(1, 2, 3, 4_000_000_000), // the last one lies after every batch timeout
+		"BatchNonce":           u(1, 2, 3),
+		"TokenContract":        s(erc1, erc2, erc3, swapCase(erc1)),
+		"Amount":               {sdkmath.NewInt(7), sdkmath.NewInt(8), sdkmath.NewInt(100), huge},
+		"EthereumSender":       s("0x00000000000000000000000000000000000000bb", "0x00000000000000000000000000000000000000cc", "0x00000000000000000000000000000000000000dd"),
+		"PalomaReceiver":       s(w.User("U1").Addr.String(), w.User("U2").Addr.String(), "garbage", "a/b"),
+		"ChainReferenceId":     s(ref, ref2, ghostRef),
+		"CompassId":            s(world.CompassID, "other-compass", "a/b", ""),
+		"ClientAddress":        s(w.User("fresh1").Addr.String(), w.User("fresh2").Addr.String(), w.User("U1").Addr.String(), "a/b"),
 		"SmartContractAddress": s(sale1, sale2, swapCase(sale1), "a/b"),
 	}
 }
